@@ -38,6 +38,11 @@ static uintptr_t g_last;
 static uint64_t g_sig = 0xcbf29ce484222325ULL;
 static volatile int g_lock;
 static int g_fill = -1; /* SIMHEAP_FILL: byte value new (non-calloc) blocks are filled with; -1 = leave the fresh zero pages */
+/* Allocation faults: requests of at least SIMHEAP_BIG bytes are counted; the SIMHEAP_FAIL_AT-th of them (and, with
+ * SIMHEAP_FAIL_STICKY=1, every later one) returns NULL / ENOMEM, which operator new turns into std::bad_alloc. */
+static size_t g_big_min;
+static unsigned long g_big, g_fail_at, g_failed;
+static int g_fail_sticky;
 
 static uint64_t sm64(uint64_t *x) {
   uint64_t z = (*x += 0x9E3779B97F4A7C15ULL);
@@ -60,6 +65,12 @@ static void heap_init(void) {
   g_init = 1;
   const char *fl = getenv("SIMHEAP_FILL");
   if (fl && fl[0]) g_fill = atoi(fl) & 0xff;
+  const char *bg = getenv("SIMHEAP_BIG");
+  if (bg && bg[0]) g_big_min = strtoull(bg, NULL, 10);
+  const char *fa = getenv("SIMHEAP_FAIL_AT");
+  if (fa && fa[0]) g_fail_at = strtoul(fa, NULL, 10);
+  const char *fs = getenv("SIMHEAP_FAIL_STICKY");
+  g_fail_sticky = fs && fs[0] == '1';
   const char *s = getenv("SIMHEAP_SEED");
   uint64_t seed = s ? strtoull(s, NULL, 10) : 1;
   uint64_t x = seed;
@@ -88,6 +99,15 @@ static void *alloc(size_t size, size_t align) {
   lock();
   heap_init();
   if (align < 16) align = 16;
+  if (g_big_min && size >= g_big_min) {
+    g_big++;
+    if (g_fail_at && (g_big == g_fail_at || (g_fail_sticky && g_big > g_fail_at))) {
+      g_failed++;
+      errno = ENOMEM;
+      unlock();
+      return NULL;
+    }
+  }
   uint64_t r = rnd();
   int reg = (int)(r % N_REGIONS);
   size_t pad = ((r >> 8) % 16) * 16;
@@ -162,7 +182,7 @@ __attribute__((destructor)) static void at_exit_report(void) {
   int fd = (int)syscall(SYS_openat, AT_FDCWD, t, O_WRONLY | O_CREAT | O_APPEND | O_CLOEXEC, 0644);
   if (fd < 0) return;
   char line[128];
-  int n = snprintf(line, sizeof line, "allocs=%lu inversions=%lu sig=%016llx\n", g_allocs, g_inversions, (unsigned long long)g_sig);
+  int n = snprintf(line, sizeof line, "allocs=%lu inversions=%lu sig=%016llx big=%lu failed=%lu\n", g_allocs, g_inversions, (unsigned long long)g_sig, g_big, g_failed);
   if (n > 0) syscall(SYS_write, fd, line, (size_t)n);
   syscall(SYS_close, fd);
 }
